@@ -542,3 +542,104 @@ func TestC06Squeeze(t *testing.T) { testSqueeze(t, "C06", expiredPairs) }
 func TestC07Squeeze(t *testing.T) {
 	testSqueeze(t, "C07", append(append([]string{}, squeezePairs[5:]...), "wait-expiring", "waitexpire-put"))
 }
+
+// ---------------------------------------------------------------------------------------------
+// private keys: many goroutines use one storage object at the same time, each on a key of its own. Per key the calls are
+// sequential, so every result must be what a sequential store gives - whatever the goroutines share behind the scenes
+// (connection pools, buffer pools, caches) must not let one caller's data reach another's key.
+
+// PrivateCase is the generated configuration.
+type PrivateCase struct {
+	Backend string `json:"backend"`
+	Threads int    `json:"threads"`
+	Rounds  int    `json:"rounds"`
+	ValLen  int    `json:"val_len"` // length of the values (their content names thread and round)
+}
+
+func runPrivate(c PrivateCase, st kvs.Storage) *vstat.Violation {
+	ctx := context.Background()
+	var first atomic.Pointer[vstat.Violation]
+	fail := func(f string, a ...any) {
+		first.CompareAndSwap(nil, vstat.V(c.Backend+":private-key-disturbed", f, a...))
+	}
+	var wg sync.WaitGroup
+	start := make(chan struct{})
+	for ti := 0; ti < c.Threads; ti++ {
+		wg.Add(1)
+		go func(ti int) {
+			defer wg.Done()
+			key := fmt.Sprintf("private/%d", ti)
+			val := func(r int) []byte {
+				b := []byte(fmt.Sprintf("t%d-r%d-", ti, r))
+				for len(b) < c.ValLen {
+					b = append(b, byte('a'+ti%26))
+				}
+				return b
+			}
+			<-start
+			ver := ""
+			cur := []byte(nil)
+			for r := 0; r < c.Rounds && first.Load() == nil; r++ {
+				v := val(r)
+				switch {
+				case ver == "":
+					nv, err := st.Create(ctx, kvs.Record{Key: key, Value: v})
+					if err != nil || nv == "" {
+						fail("thread %d round %d: Create on its own absent key returned (%q, %v)", ti, r, nv, err)
+						return
+					}
+					ver, cur = nv, v
+				case r%5 == 4:
+					if err := st.Delete(ctx, key); err != nil {
+						fail("thread %d round %d: Delete of its own key returned %v", ti, r, err)
+						return
+					}
+					ver, cur = "", nil
+					continue
+				case r%2 == 0:
+					far := time.Now().Add(time.Hour)
+					nr, err := st.CasByVersion(ctx, kvs.Record{Key: key, Value: v, Version: ver, ExpiresAt: &far})
+					if err != nil || nr.Version == "" || nr.Version == ver {
+						fail("thread %d round %d: CasByVersion with the current version %s of its own key returned (%q, %v)", ti, r, ver, nr.Version, err)
+						return
+					}
+					ver, cur = nr.Version, v
+				default:
+					nr, err := st.Put(ctx, kvs.Record{Key: key, Value: v})
+					if err != nil || nr.Version == "" || nr.Version == ver {
+						fail("thread %d round %d: Put on its own key returned (%q, %v)", ti, r, nr.Version, err)
+						return
+					}
+					ver, cur = nr.Version, v
+				}
+				got, err := st.Get(ctx, key)
+				if err != nil || got.Version != ver || string(got.Value) != string(cur) || got.Key != key {
+					fail("thread %d round %d: only this thread writes key %q; after its write (version %s, value %q) Get returns (key %q, version %s, value %q, err %v)", ti, r, key, ver, trunc(cur), got.Key, got.Version, trunc(got.Value), err)
+					return
+				}
+			}
+		}(ti)
+	}
+	close(start)
+	wg.Wait()
+	return first.Load()
+}
+
+func trunc(b []byte) string {
+	if len(b) > 40 {
+		return string(b[:40]) + "..."
+	}
+	return string(b)
+}
+
+func TestC02Private(t *testing.T) {
+	st := vstat.For("C02")
+	rapid.Check(t, func(rt *rapid.T) {
+		c := PrivateCase{Backend: rapid.SampledFrom([]string{"redis", "redis", "inmem"}).Draw(rt, "backend"), Threads: rapid.IntRange(2, vstat.Pick(48, 64)).Draw(rt, "threads"),
+			Rounds: rapid.IntRange(20, vstat.Pick(300, 1500)).Draw(rt, "rounds"), ValLen: rapid.SampledFrom([]int{0, 8, 100, 2000}).Draw(rt, "valLen")}
+		v := runPrivate(c, storageFor(rt, c.Backend))
+		st.Report(rt, "TestC02Private", c, v)
+		st.Case(c.Threads >= 4, vstat.Hash(c), func() any { return c }, "private_keys:"+c.Backend)
+		st.AddExtra("private_key_calls", int64(c.Threads*c.Rounds*2))
+	})
+}
